@@ -3,8 +3,9 @@
 cd /verif
 for d in seeded/*/; do
   ID=$(basename $d)
-  out=$(./tools_seed.sh $ID $ID 2>&1)
-  ex=$(echo "$out" | grep -o "exit\[$ID\]=[0-9]*")
+  P=${ID:0:3}   # seeded/C01b is a second seed for property C01
+  out=$(./tools_seed.sh $ID $P 2>&1)
+  ex=$(echo "$out" | grep -o "exit\[$P\]=[0-9]*")
   nv=$(echo "$out" | grep -c VIOLATION)
   echo "seed $ID: $ex violations=$nv"
 done
